@@ -9,7 +9,7 @@ LV_INIT = {"i": 41, "j": 42, "k": 43}
 MODULE = """module c05_mod
 contains
   subroutine bump(k)
-    integer, intent(inout) :: k
+    integer :: k
     k = 2 * k
   end subroutine bump
   subroutine addto(k, d)
